@@ -933,8 +933,8 @@ All but the first occurrence will be discarded/removed ...""".format(
             max_length = max(len(decay_chain), max_length)
             ls.append((dmdict["bf"], decay_chain, dmdict["model"], model_params))
 
-        # Sort decays by decreasing BF
-        ls = sorted(ls, key=lambda x: -x[0])
+        # Sort decays by decreasing (or increasing, if requested) BF
+        ls = sorted(ls, key=lambda x: x[0], reverse=not ascending)
 
         norm: float = 1.0
         if normalize:
